@@ -273,6 +273,11 @@ class Conn:
         self.closed_code = None
         self.task = None
         self.result = None
+        # a peer that does not read: ws_send blocks while the gate is closed; a peer that has gone away: ws_send raises
+        self.gate = asyncio.Event()
+        self.gate.set()
+        self.blocked = False
+        self.gone = False
 
     async def ws_recv(self):
         self.waiting = True
@@ -289,6 +294,16 @@ class Conn:
         return payload
 
     async def ws_send(self, text):
+        if not self.gate.is_set():
+            self.blocked = True
+            try:
+                await self.gate.wait()
+            finally:
+                self.blocked = False
+        if self.gone:
+            import falcon
+
+            raise falcon.WebSocketDisconnected()
         fr = project_frame(text, self.rec.uni, self.rec.sid_rev)
         self.rec.emit(a="Send", c=self.c, f=fr, raw=text if fr["t"] == "GARBAGE" else "")
 
@@ -314,6 +329,7 @@ async def run_connections(st, uni, nconns, schedule, sid_map, rate_limiter=None,
        ("open", c)                       start the handler of connection c
        ("msg", c, abstract_message)      put the frame into c's inbox; abstract_message = dict(m=..., ...)
        ("disc", c)                       the peer goes away
+       ("stall", c) / ("unstall", c)     the peer stops / resumes reading: ws_send blocks meanwhile
        ("idle",)                         run until nothing can make progress without the environment
        ("yield", k)                      let the loop run k iterations
     returns (log lines, per-connection info)
@@ -385,12 +401,15 @@ async def run_connections(st, uni, nconns, schedule, sid_map, rate_limiter=None,
                     continue
                 cn = getattr(t, "_verif_cn", None)
                 if cn is not None:
-                    if not (cn.waiting and cn.inbox.empty()):
+                    if not ((cn.waiting and cn.inbox.empty()) or cn.blocked):
                         busy = True
                     continue
                 if getattr(t.get_coro(), "__name__", "") == "send_subscriptions":
-                    # a sender blocked on its own empty queue is idle
+                    # a sender blocked on its own empty queue, or on a peer that does not read, is idle
                     try:
+                        peer = getattr(t.get_coro().cr_frame.f_locals.get("ws_send"), "__self__", None)
+                        if peer is not None and getattr(peer, "blocked", False):
+                            continue
                         q = t.get_coro().cr_frame.f_locals["get_from_storage"].__self__
                         if not q.empty():
                             busy = True
@@ -434,7 +453,13 @@ async def run_connections(st, uni, nconns, schedule, sid_map, rate_limiter=None,
                 for c, text, abstract in step[1](rec):
                     conns[c].inbox.put_nowait(("msg", text, abstract))
             elif kind == "disc":
+                conns[step[1]].gone = True
+                conns[step[1]].gate.set()
                 conns[step[1]].inbox.put_nowait(("disc", None, None))
+            elif kind == "stall":
+                conns[step[1]].gate.clear()
+            elif kind == "unstall":
+                conns[step[1]].gate.set()
             elif kind == "idle":
                 ok = await idle()
                 rec.emit(a="Idle", ok=ok, reg=rec.registry(), qlen={c: 0 for c in conns})
